@@ -156,8 +156,14 @@ class MultiTerm(qcore.Query):
         # A field the index does not have (or does not index) has no terms;
         # like Term and Phrase, a query on it matches nothing
         if not qcore.field_is_searchable(ixreader, self.field()):
-            return iter(())
-        return self._btexts(ixreader)
+            return
+        try:
+            for btext in self._btexts(ixreader):
+                yield btext
+        except UnicodeEncodeError:
+            # The query text cannot be encoded (e.g. it contains a lone
+            # surrogate), so no term of the field can match it
+            return
 
     def expanded_terms(self, ixreader, phrases=False):
         fieldname = self.field()
